@@ -69,9 +69,18 @@ class BaseValidator(object):
 
     def __exit__(self, exc_type, exc_val, exc_tb):
         """
-        Simply call :py:meth:`~.close()`.
+        Simply call :py:meth:`~.close()`. In case an error caused the
+        ``with`` block to be left, keep it instead of replacing it by the
+        complaints of checks about data that have only been partially
+        processed.
         """
-        self.close()
+        if exc_type is None:
+            self.close()
+        else:
+            try:
+                self.close()
+            except errors.CheckError:
+                pass
 
     @property
     def cid(self):
